@@ -86,4 +86,9 @@ def build(tier, repo):
                    "f.value() equals the formula for max and for min alike")
     chk.note_analysed("reducer_calls", mr.minmax_pairing_rule(r17, w))
     r17.require(3)
+    from .. import w7_rules as w7
+    r18 = chk.rule("C11-R18", "the broadcast arm (`X = X op E`) and the in-place arm (`X op= E`) of one test apply the same operation",
+                   "f -= g subtracts g whatever the lengths of f and g")
+    chk.note_analysed("broadcast_inplace_pairs", w7.arm_operator_rule(r18, w.mods["modeling"].tree, "modeling.py"))
+    r18.require(4)
     return chk
